@@ -1194,7 +1194,7 @@ func mutate(r *rng, d *jv, mk string) []*jv {
 	return []*jv{c}
 }
 
-var wrongTypeValues = []string{`null`, `true`, `false`, `1`, `"s"`, `""`, `["a"]`, `[]`, `{"a":1}`, `{}`}
+var wrongTypeValues = []string{`null`, `true`, `false`, `1`, `"s"`, `""`, `["a"]`, `[]`, `{"a":1}`, `{}`, `[""]`, `[null]`, `[null,"a"]`}
 
 // phase3Systematic gives every keyword of every kind a value of every JSON type (small witnesses).
 func phase3Systematic(emit func(cdoc)) {
